@@ -94,6 +94,10 @@ func makeRecords(withQual bool) obiseq.BioSequenceSlice {
 		}
 		seq.SetAttribute("count", i%3+1)
 		seq.SetAttribute("tag", fmt.Sprintf("t%d", i%2))
+		// per-sample maps as obiuniq / obiclean leave them (status without weight): the per-worker partial sums of
+		// obisummary are asymmetric
+		seq.SetAttribute("merged_sample", map[string]int{"sA": i%3 + 1, "sB": i%2 + 1})
+		seq.SetAttribute("obiclean_status", map[string]string{"sA": string("his"[i%3]), "sB": string("ih"[i%2])})
 		sl = append(sl, seq)
 	}
 	if !withQual {
@@ -185,12 +189,25 @@ func source(recs obiseq.BioSequenceSlice, batch int, paired bool) obiiter.IBioSe
 }
 
 type memFile struct {
-	buf    bytes.Buffer
-	closed int
+	buf       bytes.Buffer
+	closed    int
+	failWrite bool // every Write fails (the disk is full)
+	failClose bool // Close fails (the error of a delayed write surfaces there)
 }
 
-func (m *memFile) Write(p []byte) (int, error) { return m.buf.Write(p) }
-func (m *memFile) Close() error                { m.closed++; return nil }
+func (m *memFile) Write(p []byte) (int, error) {
+	if m.failWrite {
+		return 0, fmt.Errorf("injected write error: no space left on device")
+	}
+	return m.buf.Write(p)
+}
+func (m *memFile) Close() error {
+	m.closed++
+	if m.failClose {
+		return fmt.Errorf("injected close error: input/output error")
+	}
+	return nil
+}
 
 func render(it obiiter.IBioSequence) string {
 	type bt struct {
@@ -304,8 +321,15 @@ func body(p param) string {
 		m := obisummary.ISummary(source(makeRecords(false), p.Batch, false), obisummary.CLIMapSummary())
 		out, _ := json.Marshal(m)
 		return string(out)
-	case "write-fasta", "write-fastq", "write-json", "write-csv":
+	case "write-fasta", "write-fastq", "write-json", "write-csv", "fault-fasta", "fault-fastq", "fault-json", "fault-csv":
 		mf := &memFile{}
+		if strings.HasPrefix(p.Scn, "fault-") {
+			// C18: the program is main() = write everything, WaitForLastPipe(), exit(0). With a failing output the
+			// only acceptable end of EVERY interleaving is log.Fatal (outcome exit(1)) BEFORE main gets there.
+			mf.failWrite = len(p.Args) > 0 && p.Args[0] == "write"
+			mf.failClose = len(p.Args) > 0 && p.Args[0] == "close"
+			p.Scn = "write-" + p.Scn[len("fault-"):]
+		}
 		src := source(makeRecords(p.Scn == "write-fastq"), p.Batch, false)
 		opts := []obiformats.WithOption{obiformats.OptionsParallelWorkers(p.Workers), obiformats.OptionCloseFile()}
 		var out obiiter.IBioSequence
@@ -325,6 +349,10 @@ func body(p param) string {
 		}
 		out.Consume()
 		obiiter.WaitForLastPipe()
+		if mf.failWrite || mf.failClose {
+			// the end of main() is the end of the process: whatever another goroutine would still report is lost
+			vsched.Exit(0)
+		}
 		return fmt.Sprintf("closed=%d\n%s", mf.closed, mf.buf.String())
 	}
 	panic("unknown scenario " + p.Scn)
@@ -428,6 +456,14 @@ func TestVerifC05(t *testing.T) {
 		bs = []int{1, 2, 3, 6}
 	}
 	scs := scenarios()
+	if os.Getenv("VERIF_C05_ONLY") == "fault" {
+		// part of C18: the writers over an output that refuses the data
+		for _, w := range []string{"fasta", "fastq", "json", "csv"} {
+			for _, f := range []string{"write", "close"} {
+				scs = append(scs, param{Scn: "fault-" + w, Args: []string{f}})
+			}
+		}
+	}
 	if only := os.Getenv("VERIF_C05_ONLY"); only != "" {
 		var f []param
 		for _, sc := range scs {
@@ -478,8 +514,16 @@ func TestVerifC05(t *testing.T) {
 			break
 		}
 		p := j.p
+		fault := strings.HasPrefix(p.Scn, "fault-")
 		ref := reference(p)
-		if strings.HasPrefix(ref, "reference run failed") {
+		if fault {
+			// the sequential run must itself end in log.Fatal
+			if !strings.HasPrefix(ref, "reference run failed: exit(") || strings.HasPrefix(ref, "reference run failed: exit(0)") {
+				r.Violate("C18/"+p.Scn+":"+strings.Join(p.Args, "+")+"/sequential-run-does-not-report-the-failure", fmt.Sprintf("%v: %s", p, clip(ref)), p)
+				continue
+			}
+			r.Count("fault_scenarios_whose_sequential_run_exits_nonzero", 1)
+		} else if strings.HasPrefix(ref, "reference run failed") {
 			r.Violate("C05/"+p.Scn+"/sequential-run-fails", fmt.Sprintf("%v: %s", p, ref), p)
 			continue
 		}
@@ -492,6 +536,16 @@ func TestVerifC05(t *testing.T) {
 		cfg := vsched.Config{Name: p.Scn, Preemptions: j.bound, Deviations: j.dev, DelayBounding: true, Horizon: 20000,
 			MaxExec: j.max, Expired: r.Expired, Policy: p.Policy}
 		cfg.Check = func(x *vsched.Exec) string {
+			if fault {
+				o := x.Outcome()
+				if strings.HasPrefix(o, "exit(") && o != "exit(0)" {
+					return ""
+				}
+				if o == "" || o == "exit(0)" {
+					return "silent-success|the output refused the data (" + p.Args[0] + " fails) and main() reached its end (exit status 0) before any log.Fatal"
+				}
+				return o + "|" + x.Detail()
+			}
 			if x.Outcome() != "" {
 				return x.Outcome() + "|" + x.Detail()
 			}
@@ -527,6 +581,9 @@ func TestVerifC05(t *testing.T) {
 		for _, v := range st.Violations {
 			parts := strings.SplitN(v.Desc, "|", 2)
 			key := "C05/" + p.Scn + "/" + parts[0]
+			if fault {
+				key = "C18/" + p.Scn + ":" + strings.Join(p.Args, "+") + "/" + parts[0]
+			}
 			if p.Scn == "annotate" || p.Scn == "grep" {
 				key += ":" + strings.Join(optNames(p.Args), "+")
 			}
@@ -539,7 +596,11 @@ func TestVerifC05(t *testing.T) {
 			r.Violate(key, fmt.Sprintf("%s %v workers=%d batch=%d schedule=%v: %s", p.Scn, p.Args, p.Workers, p.Batch, v.Choices, parts[1]), q)
 		}
 	}
-	r.RequireNonVacuous("outcome_completed")
+	if os.Getenv("VERIF_C05_ONLY") != "fault" {
+		r.RequireNonVacuous("outcome_completed")
+	} else {
+		r.RequireNonVacuous("fault_scenarios_whose_sequential_run_exits_nonzero")
+	}
 }
 
 func optNames(args []string) []string {
